@@ -21,13 +21,70 @@ class Node:
         return self.kind in (CLS, CLSVAR, TDCLS)
 
 
-def build(ch, max_blocks, max_depth, kinds=(NS, EXT, CLS, CLSVAR, TDCLS), decls=True):
-    """Returns (root Node, list of all block Nodes in source order)."""
+NS_PAYLOADS = [
+    ("int {n};", ["on_variable"]),
+    ("void {n}();", ["on_function"]),
+    ("typedef int {n};", ["on_typedef"]),
+    ("using {n} = int;", ["on_using_alias"]),
+    ("enum {n} {{ A{n} }};", ["on_enum"]),
+    ("struct {n};", ["on_forward_decl"]),
+    ("using namespace {n};", ["on_using_namespace"]),
+    ("namespace {n} = x::y;", ["on_namespace_alias"]),
+    ("template class {n}<int>;", ["on_template_inst"]),
+    ("template <typename T> concept {n} = true;", ["on_concept"]),
+    ("{n}(int) -> {n}<int>;", ["on_deduction_guide"]),
+    ("void X::{n}() {{}}", ["on_method_impl"]),
+    ("#include <{n}.h>", ["on_include"]),
+    ("#pragma {n}", ["on_pragma"]),
+    ("using x::{n};", ["on_using_declaration"]),
+    ("int {n}a, {n}b;", ["on_variable", "on_variable"]),
+    ("static_assert(sizeof({n}) > 0, \"m\");", []),
+    ("template <typename T> T {n}(T t) {{ return t; }}", ["on_function"]),
+]
+CLS_PAYLOADS = [
+    ("int {n};", ["on_class_field"]),
+    ("void {n}();", ["on_class_method"]),
+    ("typedef int {n};", ["on_typedef"]),
+    ("using {n} = int;", ["on_using_alias"]),
+    ("enum {n} {{ A{n} }};", ["on_enum"]),
+    ("struct {n};", ["on_forward_decl"]),
+    ("friend class {n};", ["on_class_friend"]),
+    ("using x::{n};", ["on_using_declaration"]),
+    ("public:", []),
+    ("friend void {n}();", ["on_class_friend"]),
+    ("#pragma {n}", ["on_pragma"]),
+    ("static_assert(true);", []),
+    ("int {n}a : 2, {n}b;", ["on_class_field", "on_class_field"]),
+    ("virtual void {n}() const = 0;", ["on_class_method"]),
+    ("operator int();", ["on_class_method"]),
+    ("static int {n};", ["on_class_field"]),
+    ("template <typename T> void {n}(T) {{}}", ["on_class_method"]),
+    ("struct {{ int {n}; }};", ["on_class_start", "on_class_field", "on_class_end", "on_class_field"]),
+]
+
+
+def payload_of(node, name, payload, slot):
+    """(source line, [callback names]) of the declaration in slot `slot` (payload None: plain int)"""
+    in_class = node.is_class and node.idx >= 0
+    table = CLS_PAYLOADS if in_class else NS_PAYLOADS
+    if payload is None:
+        k = 0
+    else:
+        k = (payload + slot) % len(table)
+    text, cbs = table[k]
+    return text.format(n=name), cbs
+
+
+def build(ch, max_blocks, max_depth, kinds=(NS, EXT, CLS, CLSVAR, TDCLS), decls=True, payload=None):
+    """Returns (root Node, list of all block Nodes in source order).  payload: None = plain int declarations,
+    an int p = declaration kinds (p + slot) taken round-robin from NS_PAYLOADS / CLS_PAYLOADS."""
     root = Node(NS, -1, None)
+    root.payload = payload
     blocks = []
     counter = [0]
 
     def fill(node, depth):
+        node.payload = payload
         if decls:
             node.items.append(("decl", f"a{len(blocks)}_{depth}"))
         while len(blocks) < max_blocks and depth < max_depth:
@@ -39,6 +96,7 @@ def build(ch, max_blocks, max_depth, kinds=(NS, EXT, CLS, CLSVAR, TDCLS), decls=
             if c == len(allowed):
                 break
             child = Node(allowed[c], len(blocks), node)
+            child.slot0 = len(blocks) + 1
             blocks.append(child)
             node.children.append(child)
             node.items.append(("block", child))
@@ -55,9 +113,12 @@ def render(node, indent=0):
     """source text of the items of `node` (one item per line, so that line numbers are easy)"""
     out = []
     pad = "  " * indent
+    slot = getattr(node, "slot0", 0)
     for it in node.items:
         if it[0] == "decl":
-            out.append(f"{pad}int {it[1]};")
+            text, _ = payload_of(node, it[1], getattr(node, "payload", None), slot)
+            slot += 1
+            out.append(f"{pad}{text}")
         else:
             b = it[1]
             k = b.kind
@@ -110,9 +171,20 @@ def expected_events(node, skipped=frozenset(), out=None):
     if out is None:
         out = [("on_parse_start", -1)]
     in_class = node.is_class and node.idx >= 0
+    slot = getattr(node, "slot0", 0)
     for it in node.items:
         if it[0] == "decl":
-            out.append(("on_class_field" if in_class else "on_variable", node.idx))
+            _, cbs = payload_of(node, it[1], getattr(node, "payload", None), slot)
+            slot += 1
+            if cbs == ["on_class_start", "on_class_field", "on_class_end", "on_class_field"]:
+                # anonymous struct member: its own (anonymous) block state, then the promoted field in the parent
+                out.append(("on_class_start", ("anon", node.idx, slot)))
+                out.append(("on_class_field", ("anon", node.idx, slot)))
+                out.append(("on_class_end", ("anon", node.idx, slot)))
+                out.append(("on_class_field", node.idx))
+                continue
+            for cb in cbs:
+                out.append((cb, node.idx))
         else:
             b = it[1]
             st = START_OF[b.kind]
